@@ -64,10 +64,20 @@ sub_corners (Ctx& c, uint64_t idx)
     count_classes (c, fc);
     c.nontrivial (fc.hash ());
     Frustum<T>  fr = fc.fr ();
-    Matrix44<T> M  = fr.projectionMatrix ();
     LD          eps = eps_of<T>::value;
     LD          k[3] = {1 + fc.kx (), 1 + fc.ky (), 1 + fc.kz ()};
     static const char* const ax[3] = {"x", "y", "z"};
+    // both spellings of the projection matrix: projectionMatrix() and, when it returns, projectionMatrixExc()
+    for (int variant = 0; variant < 2; ++variant)
+    {
+    Matrix44<T> M;
+    const char* fname = variant ? "projectionMatrixExc" : "projectionMatrix";
+    if (variant == 0) M = fr.projectionMatrix ();
+    else
+    {
+        try { M = fr.projectionMatrixExc (); c.cls ("projectionMatrixExc_returned"); }
+        catch (const std::exception&) { c.cls ("projectionMatrixExc_threw"); continue; }
+    }
     for (int ci = 0; ci < 8; ++ci)
     {
         int ix = ci & 1, iy = (ci >> 1) & 1, iz = (ci >> 2) & 1;
@@ -77,7 +87,7 @@ sub_corners (Ctx& c, uint64_t idx)
         c.eval ();
         if (!(o[3] > 0))
         {
-            c.fail (key<T> ("projectionMatrix", "corner_w_not_positive"), idx, [&] { return Obj ().raw ("frustum", fc.js ()).kv ("corner", ci).kv ("w", o[3]).str (); });
+            c.fail (key<T> (fname, "corner_w_not_positive"), idx, [&] { return Obj ().raw ("frustum", fc.js ()).kv ("corner", ci).kv ("w", o[3]).str (); });
             continue;
         }
         LD want[3] = {ix ? 1.0L : -1.0L, iy ? 1.0L : -1.0L, iz ? 1.0L : -1.0L};
@@ -86,10 +96,11 @@ sub_corners (Ctx& c, uint64_t idx)
             LD got = o[a] / o[3], ratio = fabsl (got - want[a]) / (eps * k[a]);
             c.worst (a == 2 ? "projectionMatrix.corner_z.ratio" : "projectionMatrix.corner_xy.ratio", (double) ratio, idx, [&] { return fc.js (); });
             if (!(ratio <= C_CORNER))
-                c.fail (key<T> ("projectionMatrix", (std::string ("corner_") + ax[a] + (fc.ortho ? "_orthographic" : "_perspective")).c_str ()), idx, [&] {
+                c.fail (key<T> (fname, (std::string ("corner_") + ax[a] + (fc.ortho ? "_orthographic" : "_perspective")).c_str ()), idx, [&] {
                     return Obj ().raw ("frustum", fc.js ()).kv ("corner", ci).kv ("axis", ax[a]).kv ("got_ndc", got).kv ("want_ndc", want[a]).kv ("tol", C_CORNER * eps * k[a]).str ();
                 });
         }
+    }
     }
     if (idx % 64 < 2) c.sample (fc.ortho ? "orthographic" : "perspective", [&] { return fc.js (); });
 }
